@@ -475,7 +475,7 @@ func (S *sidesInfo) agnostic(fn *ssa.Function) bool {
 					return false
 				}
 			case ssa.CallInstruction:
-				if S.callbackKind(x) != "" {
+				if S.callbackKind(x) != "" && !S.wrapsLinkCallback(x) {
 					return false
 				}
 			}
@@ -488,7 +488,7 @@ func (S *sidesInfo) agnostic(fn *ssa.Function) bool {
 // the signature of DiffIter's / DiffLinks' callback; "" otherwise.
 func (S *sidesInfo) callbackKind(ci ssa.CallInstruction) string {
 	com := ci.Common()
-	if com.IsInvoke() || com.StaticCallee() != nil {
+	if com.IsInvoke() || ir.Callee(com) != nil {
 		return ""
 	}
 	if _, ok := com.Value.(*ssa.Builtin); ok {
@@ -538,17 +538,17 @@ func (S *sidesInfo) badness() int {
 						}
 					}
 				}
-			case "link":
-				if rem, ok := ir.ConstBool(args[S.linkRemovedIdx]); ok {
-					want := sdNew
-					if rem {
-						want = sdOld
-					}
-					if got := S.sideOf(args[S.linkLinkIdx]); got != sdNone && got != want {
-						n++
-					}
-				}
 			}
+		}
+	}
+	dl, _ := S.LinkDeliveries()
+	for _, d := range dl {
+		want := sdNew
+		if d.removed {
+			want = sdOld
+		}
+		if got := S.sideOf(d.link); got != sdNone && got != want {
+			n++
 		}
 	}
 	return n
@@ -971,7 +971,7 @@ func sdCoVote(args []sdArg, i int) side {
 
 func (S *sidesInfo) scanCall(ci ssa.CallInstruction, emitVal func(ssa.Value, side), emitVote func(sdVote)) {
 	com := ci.Common()
-	callee := com.StaticCallee()
+	callee := ir.Callee(com)
 	cv, isVal := ci.(*ssa.Call)
 	switch {
 	case callee != nil && S.slice[callee] && !S.poly[callee]:
@@ -1100,7 +1100,7 @@ func sdDescD(v ssa.Value, d int) string {
 		return "φ"
 	case *ssa.Call:
 		n := "call"
-		if sc := x.Call.StaticCallee(); sc != nil {
+		if sc := ir.Callee(x.Call); sc != nil {
 			n = sc.Name()
 		} else if b, ok := x.Call.Value.(*ssa.Builtin); ok {
 			n = b.Name()
@@ -1144,7 +1144,7 @@ func (S *sidesInfo) MixedCalls() []*ssa.Call {
 	for _, fn := range S.fns {
 		for _, ci := range CallsOf(fn) {
 			call, ok := ci.(*ssa.Call)
-			callee := ci.Common().StaticCallee()
+			callee := ir.Callee(ci.Common())
 			if !ok || callee == nil || !S.slice[callee] || !S.poly[callee] {
 				continue
 			}
@@ -1275,4 +1275,91 @@ func sdEvalCond(cond ssa.Value, leaf func(ssa.Value) (bool, bool), depth int) (b
 		return res, have
 	}
 	return false, false
+}
+
+// sdDelivery is one hand-over of a link to the link callback with a known
+// `removed` constant: the callback call itself, or — when the call sits in a
+// helper that receives both `removed` and the link as parameters — the call
+// of that helper.
+type sdDelivery struct {
+	at      ssa.CallInstruction
+	removed bool
+	link    ssa.Value
+	via     string // helper chain, "" for a direct call
+}
+
+func sdParamIndex(fn *ssa.Function, v ssa.Value) int {
+	p, ok := ir.ResolveCell(ir.Strip(v)).(*ssa.Parameter)
+	if !ok {
+		return -1
+	}
+	for i, q := range fn.Params {
+		if q == p {
+			return i
+		}
+	}
+	return -1
+}
+
+// wrapsLinkCallback: ci is a link callback call whose `removed` and link
+// arguments are parameters of the enclosing function.
+func (S *sidesInfo) wrapsLinkCallback(ci ssa.CallInstruction) bool {
+	if S.callbackKind(ci) != "link" {
+		return false
+	}
+	args := ci.Common().Args
+	if S.linkRemovedIdx >= len(args) || S.linkLinkIdx >= len(args) {
+		return false
+	}
+	fn := ci.Parent()
+	return sdParamIndex(fn, args[S.linkRemovedIdx]) >= 0 && sdParamIndex(fn, args[S.linkLinkIdx]) >= 0
+}
+
+// LinkDeliveries resolves every link callback invocation of the diff to
+// deliveries with a constant `removed`; unresolved lists the calls for which
+// that is not possible.
+func (S *sidesInfo) LinkDeliveries() (out []sdDelivery, unresolved []ssa.CallInstruction) {
+	var resolve func(at ssa.CallInstruction, rem, link ssa.Value, via string, depth int) bool
+	resolve = func(at ssa.CallInstruction, rem, link ssa.Value, via string, depth int) bool {
+		if k, ok := ir.ConstBool(rem); ok {
+			out = append(out, sdDelivery{at: at, removed: k, link: link, via: via})
+			return true
+		}
+		fn := at.Parent()
+		ri, li := sdParamIndex(fn, rem), sdParamIndex(fn, link)
+		if ri < 0 || li < 0 || depth >= 2 {
+			return false
+		}
+		n := 0
+		for _, cs := range S.P.Callers[fn] {
+			if !S.slice[cs.Parent()] {
+				continue
+			}
+			a := cs.Common().Args
+			if ri >= len(a) || li >= len(a) {
+				return false
+			}
+			n++
+			v := fn.Name()
+			if via != "" {
+				v = fn.Name() + " ← " + via
+			}
+			if !resolve(cs, a[ri], a[li], v, depth+1) {
+				return false
+			}
+		}
+		return n > 0
+	}
+	for _, fn := range S.fns {
+		for _, ci := range CallsOf(fn) {
+			if S.callbackKind(ci) != "link" {
+				continue
+			}
+			args := ci.Common().Args
+			if S.linkRemovedIdx >= len(args) || S.linkLinkIdx >= len(args) || !resolve(ci, args[S.linkRemovedIdx], args[S.linkLinkIdx], "", 0) {
+				unresolved = append(unresolved, ci)
+			}
+		}
+	}
+	return
 }
